@@ -94,7 +94,7 @@ theorem instrOk_parts {B : List Nat} {types : List (Nat × Nat × Nat)} {contain
 
 /-- one section is well-formed -/
 def secOkB (types : List (Nat × Nat × Nat)) (containers : List (List Nat)) (self : Nat) (sec : List Nat) : Bool :=
-  (boundaries sec).contains 0 &&
+  sec.all (fun b => decide (b < 256)) && (boundaries sec).contains 0 &&
   (boundaries sec).all fun i => decide (i < sec.length) && instrOk (boundaries sec) types containers self sec i
 
 /-- the decidable well-formedness check of a container -/
@@ -111,7 +111,7 @@ structure WfStatic (sections : List (List Nat)) (types : List (Nat × Nat × Nat
   first : returning (typeOf types 0) = false
   dataLen : data.length ≤ Memory.ISIZE_MAX
   secs : ∀ k sec, sections[k]? = some sec →
-    0 ∈ boundaries sec ∧ ∀ i ∈ boundaries sec, i < sec.length ∧
+    (∀ b ∈ sec, b < 256) ∧ 0 ∈ boundaries sec ∧ ∀ i ∈ boundaries sec, i < sec.length ∧
       instrOk (boundaries sec) types containers k sec i = true
 
 abbrev WfCtx (c : EofCtx) : Prop := WfStatic c.sections c.types c.containers c.data
@@ -133,7 +133,7 @@ theorem wfCtx_of_check (c : EofCtx) (h : wfCtxB c = true) : WfCtx c := by
   rw [hget] at hs
   unfold secOkB at hs
   simp only [Bool.and_eq_true, List.contains_iff_mem, List.all_eq_true, decide_eq_true_eq] at hs
-  exact ⟨hs.1, fun i hi => hs.2 i hi⟩
+  exact ⟨hs.1.1, hs.1.2, fun i hi => hs.2 i hi⟩
 
 /-! ## the dynamic part: the function stack -/
 
@@ -171,6 +171,6 @@ theorem invE_loop : LoopInv InvE :=
 theorem InvE.pc_lt {s : IState} (h : InvE s) : s.pc < s.code.length := by
   obtain ⟨c, sec, _, hok, hsec, hcode, hpc⟩ := h.ctx
   rw [hcode]
-  exact ((hok.wf.secs _ _ hsec).2 _ hpc).1
+  exact ((hok.wf.secs _ _ hsec).2.2 _ hpc).1
 
 end Revm.Proofs.Interp
